@@ -282,7 +282,11 @@ class PTable(EngineBase):
             if r < 0.78:
                 return {"op": "cache_clear"}
             if r < 0.92:
-                return {"op": "is_running_y", "i": rng.randrange(64)}
+                op = {"op": "is_running_y", "i": rng.randrange(64)}
+                if rng.random() < 0.3:
+                    # the reuse check runs inside another guarded call first
+                    op["via"] = rng.choice(["ppid", "children", "parent"])
+                return op
             if world.get("overlap"):
                 if rng.random() < 0.35:
                     # the oldest abandoned iterator is finalised now (its
@@ -407,6 +411,9 @@ class PTable(EngineBase):
                         seq.append({"op": "open_iter",
                                     "consume": rng.choice([1, 2])})
                 seq.append({"op": "is_running_y", "i": 0, "pid": x})
+                if rng.random() < 0.3:
+                    seq[-1]["via"] = rng.choice(["ppid", "children",
+                                                 "parent"])
                 if rng.random() < 0.3:
                     seq.append({"op": "iter", "consume": None})
                 if rng.random() < 0.5:
@@ -792,6 +799,11 @@ class PTable(EngineBase):
             if "pid" in op:
                 ys = [y for y in ys if y.pid == op["pid"]] or ys
             o = ys[op["i"] % len(ys)]
+            if op.get("via"):
+                try:
+                    getattr(o, op["via"])()
+                except psutil.Error:
+                    pass
             return ("y", o, o.is_running())
         h = self._handle(st, op.get("h", 0))
         if h is None:
